@@ -14,7 +14,19 @@ def mkconn():
     return LinearDense((3,), (2,), 1.0, synapse=DeltaCurrent.partialconstructor(1.0))
 
 
+def _halfsum(x, dim):
+    return 0.5 * torch.sum(x, dim)
+
+
+# custom reductions: mean is the identity on a stack of one part, the scaled sum is not (a reduction is applied to
+# EVERY non-empty side, also when it holds a single part)
+REDS = {"mean": torch.mean, "halfsum": _halfsum}
+
+
 def run_sequence(seed, steps=12, bound=None, reduction=None, order_shuffle=False):
+    if isinstance(reduction, str):
+        reduction = REDS[reduction]
+    rname = None if reduction is None else ("halfsum" if reduction is _halfsum else "mean")
     rnd = random.Random(seed)
     torch.manual_seed(seed)
     c = mkconn()
@@ -37,7 +49,7 @@ def run_sequence(seed, steps=12, bound=None, reduction=None, order_shuffle=False
     for t in range(steps):
         op = rnd.choice(["contrib", "contrib_pos", "contrib_neg", "read", "update", "update_noclear", "clear", "contrib_none"])
         ops.append(op)
-        inp = dict(seed=seed, ops=list(ops), bound=bound, reduction=None if reduction is None else "mean")
+        inp = dict(seed=seed, ops=list(ops), bound=bound, reduction=rname)
         if op == "contrib":
             p, n = torch.rand(2, 3) * 0.2, torch.rand(2, 3) * 0.2
             u.weight = (p, n)
@@ -149,7 +161,7 @@ def sweep(tier="quick", seed=0, unsupported=()):
     for s in range(n):
         for bound in (None, "mult", "full_sharp"):
             cases += 1
-            f = run_sequence(seed * 10007 + s, bound=bound, reduction=(torch.mean if s % 3 == 0 else None))
+            f = run_sequence(seed * 10007 + s, bound=bound, reduction=(("mean", "halfsum")[(s // 3) % 2] if s % 3 == 0 else None))
             if f is not None and not any(x["what"] == f["what"] for x in failures):
                 failures.append(f)
     for s in range(3 if tier == "quick" else 20):
@@ -250,7 +262,7 @@ def replay_bounding(name, model):
 def replay(contract, label, model, note=""):
     if contract.startswith("Accumulator.") or contract.startswith("Updater."):
         for s_ in range(40):
-            f = run_sequence(s_, bound="mult")
+            f = run_sequence(s_, bound="mult", reduction=("halfsum" if "reduction" in contract or "reduction" in label else None))
             if f:
                 return {"reproduced": True, "failure": f, "concrete": f["input"], "search": {"points_tried": s_ + 1}}
     if contract.startswith("Updatable."):
@@ -268,7 +280,7 @@ def replay(contract, label, model, note=""):
     for s in range(300):
         for bound in (None, "mult", "full_sharp"):
             tried += 1
-            f = run_sequence(s, bound=bound, reduction=(torch.mean if s % 2 else None))
+            f = run_sequence(s, bound=bound, reduction=(("mean", "halfsum")[(s // 2) % 2] if s % 2 else None))
             if f:
                 return {"reproduced": True, "failure": f, "concrete": f["input"], "search": {"points_tried": tried}}
     f = stay_in_range(0)
@@ -297,7 +309,7 @@ def replay_native(rp):
         return {"reproduced": r["reproduced"], "failure": r.get("failure")}
     if "ops" in i:
         for bound in (i.get("bound"),):
-            f = run_sequence(i["seed"], bound=bound, reduction=(torch.mean if i.get("reduction") else None))
+            f = run_sequence(i["seed"], bound=bound, reduction=(i.get("reduction") or None))
             return {"reproduced": f is not None, "failure": f}
     f = stay_in_range(i.get("seed", 0))
     return {"reproduced": f is not None, "failure": f}
